@@ -40,7 +40,9 @@ def check(model, tier):
 LEVEL_TEXT = (
     "Proof by exhaustive static enumeration: all attribute stores in the package are listed and the single payload "
     "writer is shown to be dominated by the None test on every path; evaluation sites are shown to be dominated by "
-    "the cache test and to attach exactly once.  The quantifier over call histories collapses because each obligation "
+    "the cache test and to attach exactly once; the persisted flag each Processor arm reports and the places "
+    "materialize_as may travel are pinned per arm, and markers are re-applied only for the identical (`is`) target, so a "
+    "materialization is never computed a second time because a processed or payload-bearing node was dropped.  The quantifier over call histories collapses because each obligation "
     "is per call and the guard reads the object's own state."
 )
 LEVEL_NOTE = (
